@@ -1,0 +1,75 @@
+//! Verification hooks, compiled only with `--cfg probminhash_verif`.
+//!
+//! Everything here is read-only access to otherwise private state, or a step budget
+//! that is unlimited unless a harness sets it. Nothing in this module is reachable in a
+//! normal build.
+
+use std::cell::Cell;
+
+pub use crate::maxvaluetrack::MaxValue;
+use crate::maxvaluetrack::MaxValueTracker;
+
+/// marker carried by the panic raised when the step budget is exhausted
+pub const BUDGET_MARKER: &str = "VERIF_STEP_BUDGET_EXHAUSTED";
+
+thread_local! {
+    static BUDGET: Cell<Option<u64>> = const { Cell::new(None) };
+    static TICKS: Cell<u64> = const { Cell::new(0) };
+}
+
+/// sets (Some(n)) or removes (None) the per-thread step budget and resets the tick counter
+pub fn set_budget(budget: Option<u64>) {
+    BUDGET.with(|b| b.set(budget));
+    TICKS.with(|t| t.set(0));
+}
+
+/// number of ticks counted since the last set_budget
+pub fn ticks() -> u64 {
+    TICKS.with(|t| t.get())
+}
+
+/// called from loops whose termination is a property; panics with BUDGET_MARKER once the budget is used up
+#[inline]
+pub fn tick() {
+    let n = TICKS.with(|t| {
+        let n = t.get() + 1;
+        t.set(n);
+        n
+    });
+    if let Some(b) = BUDGET.with(|b| b.get()) {
+        if n > b {
+            std::panic!("{}", BUDGET_MARKER);
+        }
+    }
+}
+
+/// public face of the crate private MaxValueTracker
+pub struct Tracker<V> {
+    inner: MaxValueTracker<V>,
+}
+
+impl<V> Tracker<V>
+where
+    V: MaxValue + PartialOrd + Copy + std::fmt::Debug,
+{
+    pub fn new(m: usize) -> Self {
+        Tracker {
+            inner: MaxValueTracker::new(m),
+        }
+    }
+    pub fn update(&mut self, k: usize, value: V) {
+        self.inner.update(k, value)
+    }
+    pub fn get_max_value(&self) -> V {
+        self.inner.get_max_value()
+    }
+    pub fn get_value(&self, slot: usize) -> V {
+        self.inner.get_value(slot)
+    }
+    pub fn is_update_possible(&self, value: V) -> bool {
+        self.inner.is_update_possible(value)
+    }
+    pub fn reset(&mut self) {
+        self.inner.reset()
+    }
+}
